@@ -267,6 +267,7 @@ func ruleC06(w *World, r *Report) {
 	r.Explanation = "R06.1 must-lockset: every access to IPPool.freePool / IPPool.inventory (outside the constructor's fresh object) holds IPPool.mu, exclusively for writes, and the mutex is the accessed object's own; LK.balanced for the pool's methods; R06.2 atomic sections: a pool write that depends on a pool read made under an earlier acquisition re-reads that field (no check-then-act across an unlock); R06.3 encapsulation: pool state is touched only by IPPool's methods and NewIPPool, upf.ippool is assigned once at start-up; " +
 		"R06.4 constructor shape: the list is the ordered, complete enumeration of the CIDR (start ip.Mask(mask), while Contains, inc) of private copies, a size check dominates the trim, the stored pool is list[1:len-1] (first = network, last = broadcast); LookupOrAllocIP: sticky (inventory hit returns it), refusal only on an empty pool, dequeues the head and records it under the same key, hands out a copy; DeallocIP returns exactly the session's recorded address and forgets it; " +
 		"R06.5 allocation trigger table (needAllocIP over all 256 flag values) and its use; R06.6 the deletion handler releases the address only after the datapath delete was accepted."
+	r.Explanation += " R06.7 the per-connection local-SEID generator is seeded from a source that differs between connections created together (nanosecond clock / crypto), because the shared pool is keyed by local SEID."
 	r.NotDecided = "in-range / exclusive / conserved as invariants over the runtime contents of the two containers (they follow from R06.1–R06.4 by an induction this checker does not mechanise); the carry arithmetic of inc()"
 
 	pool := map[string]bool{"freePool": true, "inventory": true}
@@ -307,6 +308,7 @@ func ruleC06(w *World, r *Report) {
 	ruleC06Ops(w, r)
 	ruleC06Trigger(w, r)
 	ruleC06Release(w, r)
+	ruleC06SeidEntropy(w, r)
 }
 
 func ruleC06Ctor(w *World, r *Report) {
@@ -812,6 +814,20 @@ func dealloc0(w *World, prop string) *ssa.Function {
 
 // evalBoolFunc interprets a small boolean function whose only inputs are calls answered by atom.
 func evalBoolFunc(f *ssa.Function, atom func(*ssa.Call) (bool, bool)) (bool, bool) {
+	return evalBoolFuncV(f, func(v ssa.Value) (bool, bool, bool) {
+		if c, ok := v.(*ssa.Call); ok && c.Type().String() == "bool" {
+			x, okA := atom(c)
+			return x, okA, true
+		}
+		return false, false, false
+	})
+}
+
+// evalBoolFuncV interprets a boolean function for one valuation of its atoms. atomV is asked about every
+// boolean value the function computes; it answers (value, known, isAtom). Values that are not atoms are
+// computed from their operands (!, ==, != on booleans, φ by the edge taken); an atom that is not known,
+// or a boolean the interpreter cannot compute, makes the result unknown.
+func evalBoolFuncV(f *ssa.Function, atomV func(ssa.Value) (val, known, isAtom bool)) (bool, bool) {
 	env := map[ssa.Value]bool{}
 	var prev *ssa.BasicBlock
 	b := f.Blocks[0]
@@ -822,9 +838,20 @@ func evalBoolFunc(f *ssa.Function, atom func(*ssa.Call) (bool, bool)) (bool, boo
 		x, ok := env[v]
 		return x, ok
 	}
-	for steps := 0; steps < 200; steps++ {
+	for steps := 0; steps < 400; steps++ {
 		var next *ssa.BasicBlock
 		for _, ins := range b.Instrs {
+			if v, isV := ins.(ssa.Value); isV {
+				if _, isPhi := ins.(*ssa.Phi); !isPhi && v.Type().Underlying().String() == "bool" {
+					if x, known, isAtom := atomV(v); isAtom {
+						if !known {
+							return false, false
+						}
+						env[v] = x
+						continue
+					}
+				}
+			}
 			switch x := ins.(type) {
 			case *ssa.Phi:
 				for k, p := range b.Preds {
@@ -833,14 +860,6 @@ func evalBoolFunc(f *ssa.Function, atom func(*ssa.Call) (bool, bool)) (bool, boo
 							env[x] = v
 						}
 					}
-				}
-			case *ssa.Call:
-				if x.Type().String() == "bool" {
-					v, ok := atom(x)
-					if !ok {
-						return false, false
-					}
-					env[x] = v
 				}
 			case *ssa.UnOp:
 				if x.Op == token.NOT {
@@ -888,4 +907,46 @@ func evalBoolFunc(f *ssa.Function, atom func(*ssa.Call) (bool, bool)) (bool, boo
 		prev, b = b, next
 	}
 	return false, false
+}
+
+// ruleC06SeidEntropy (R06.7): the UE IP pool is shared by all associations and keyed by the local SEID,
+// while local SEIDs are drawn from a per-association generator and only checked for uniqueness within
+// that association. Two associations may therefore never draw the same SEID sequence: the generator's
+// seed must differ between connections created close together — nanosecond clock or crypto/rand, not a
+// value with second resolution or one that is shared (the recovery time stamp, a constant).
+func ruleC06SeidEntropy(w *World, r *Report) {
+	const P = "C06"
+	nc := w.Fn(P, "pfcpiface.(*PFCPNode).NewPFCPConn")
+	n := 0
+	allInstrs(nc, func(i ssa.Instruction) {
+		c, ok := i.(*ssa.Call)
+		if !ok {
+			return
+		}
+		name := calleeName(c)
+		if name != "math/rand.NewSource" && name != "math/rand/v2.NewPCG" {
+			return
+		}
+		n++
+		okE := false
+		var srcs []string
+		for _, a := range c.Call.Args {
+			s := symOf(a).String()
+			srcs = append(srcs, s)
+			if strings.Contains(s, "UnixNano") || strings.Contains(s, "crypto/rand") || strings.Contains(s, "math/rand.Int63") || strings.Contains(s, "math/rand.Uint64") || strings.Contains(s, "maphash") {
+				okE = true
+			}
+		}
+		r.check(okE, "R06.7", w.FuncName(nc), "the local-SEID generator of a connection is seeded with a value no other connection gets", w.Pos(c.Pos()), strings.Join(srcs, ", "), "the generator is seeded with "+strings.Join(srcs, ", ")+": two associations set up within the resolution of that value draw identical local SEIDs, and the shared UE IP pool (keyed by local SEID) gives their n-th sessions the same address")
+	})
+	if n == 0 {
+		// no explicit source: the connection must not build a deterministic generator some other way
+		det := false
+		allInstrs(nc, func(i ssa.Instruction) {
+			if c, ok := i.(*ssa.Call); ok && calleeName(c) == "math/rand.New" {
+				det = true
+			}
+		})
+		r.check(!det, "R06.7", w.FuncName(nc), "the local-SEID generator is seeded", w.Pos(nc.Pos()), "no rand.New without a recognised source", "rand.New is called with a source this rule does not recognise")
+	}
 }
